@@ -223,7 +223,7 @@ def inst_C14(profile):
 
 PROOF_IMPORTS = ["Bits", "Codec", "Tables", "Spec", "Derive", "C05Check", "SeqModel", "SeqProofs", "SeqProofs2",
                  "SymMap", "C20Check", "IterProofs", "KmerModel", "KmerProofs", "KmerProofs2", "OrderProofs",
-                 "OrderKmer", "Rev2Bit", "KmerDna", "IupacProofs", "Translate", "CodonTable", "DeriveProofs", "History"]
+                 "OrderKmer", "Rev2Bit", "KmerDna", "IupacProofs", "Translate", "CodonTable", "DeriveProofs", "History", "VM", "Refine"]
 
 def _c16(ctx, spec):
     from .progchecks import c16_programs
@@ -304,7 +304,8 @@ REGISTRY = {
                 extra_imports=["From BioSeqProps Require Import C06."],
                 instances=okb_lift(["C06.C06_insert @C (codec_okb_sound @C @INST)",
                                     "C06.C06_remove @C debug_assertions (codec_okb_sound @C @INST)",
-                                    "C06.C06_any_history @C debug_assertions (codec_okb_sound @C @INST)"]),
+                                    "C06.C06_any_history @C debug_assertions (codec_okb_sound @C @INST)",
+                                    "C06.C06_vm_refines_list_machine @C debug_assertions (codec_okb_sound @C @INST)"]),
                 assumptions=["aliasing (a clone sharing storage with its source) cannot be exhibited by an immutable "
                              "model: the clause 'clones and slices copied out earlier keep their old content' is "
                              "covered by re-observing every register after every edit in the correspondence only"],
